@@ -17,6 +17,7 @@ import (
 	context "context"
 	"errors"
 
+	"github.com/attestantio/dirk/util/verifhook"
 	e2wtypes "github.com/wealdtech/go-eth2-wallet-types/v2"
 )
 
@@ -34,6 +35,9 @@ func signRoot(ctx context.Context, account e2wtypes.Account, root []byte) ([]byt
 	signer, isSigner := account.(e2wtypes.AccountSigner)
 	if !isSigner {
 		return nil, errors.New("not a signer")
+	}
+	if err := verifhook.Point("sign.enter", root); err != nil {
+		return nil, err
 	}
 	signature, err := signer.Sign(ctx, root)
 	if err != nil {
